@@ -52,6 +52,11 @@ func (self *Compiler) compileFn(node ast.AnalyzedFunctionDefinition) (annotation
 	self.pushScope()
 	defer self.popScope()
 
+	// A function body starts outside of any `try` block (also a lambda defined inside one)
+	outerTryDepth := self.tryDepth
+	self.tryDepth = 0
+	defer func() { self.tryDepth = outerTryDepth }()
+
 	// Compile annotations.
 	if node.Annotation != nil {
 		compiledItems := make([]CompiledAnnotation, len(node.Annotation.Items))
